@@ -45,9 +45,10 @@ def _run_shard(prop, tier, seed, shard, nshards, budget, state):
         state=state,
     )
     try:
-        if shard == 0:
-            # committed regression cases first
-            for path in sorted(glob.glob(os.path.join(VERIF, "corpus", prop, "*.json"))):
+        if True:
+            # committed regression cases first, spread over the shards
+            files = [] if os.environ.get("VERIF_NO_CORPUS") else sorted(glob.glob(os.path.join(VERIF, "corpus", prop, "*.json")))
+            for path in [f for i, f in enumerate(files) if i % nshards == shard]:
                 with open(path) as fh:
                     doc = json.load(fh)
                 ctx.event("corpus_case")
